@@ -212,6 +212,20 @@ func genC15(seed int64, tier string) []caseOut {
 			add(fmt.Sprintf("%s:created-from-a-reused-header-map-%d", kind, m), sg.jwk, c, true, payloads[m])
 		}
 	}
+	// a JWS created with unprotected headers next to the protected ones: the compact form carries (and
+	// signs) the protected ones and verifies
+	for _, kind := range keyKinds {
+		k := genKey(rand.New(rand.NewSource(int64(1900+len(kind)))), kind)
+		sg := k.signer()
+		for m, unprot := range []jws.Headers{{"note": "unprotected"}, {"kid": "other", "x": 1}, {}} {
+			p := fmt.Sprintf(`{"unprotected":%d}`, m)
+			c := ""
+			if j, err := jwsutil.NewJWS(jws.Headers{"kid": "protected-kid"}, unprot, []byte(p), sg); err == nil {
+				c, _ = j.SerializeCompact(false)
+			}
+			add(fmt.Sprintf("%s:created-with-unprotected-headers-%d", kind, m), sg.jwk, c, true, p)
+		}
+	}
 	// signature components at or above the group order: for a fixed message and nonce, s = 5 and the
 	// private key solved from the signing equation; (r, s) verifies, (r, s + N) - the same residue,
 	// other octets - must not (honest signatures never have a component that small)
@@ -305,6 +319,11 @@ func genC15(seed int64, tier string) []caseOut {
 							Label:  fmt.Sprintf("%s:detached-option-%d", kind2label(kind), kind),
 							NonTri: fmt.Sprintf("%x", hh[:8]),
 						})
+					}
+					// malformed compact forms stay malformed when the payload is supplied separately
+					for q, bad := range []string{parts[0] + "." + parts[1] + ".x." + parts[2], parts[0] + "..." + parts[2], parts[0] + ".a.b.c." + parts[2],
+						parts[0] + ".junk!.~~." + parts[2], parts[0] + "." + parts[2], parts[0] + ".." + parts[2] + "."} {
+						optCase(20+q, bad, false, jwsutil.WithJWSDetachedPayload(payload))
 					}
 					optCase(1, compact, false, jwsutil.WithJWSDetachedPayload(other))
 					optCase(2, detached, true, jwsutil.WithJWSDetachedPayload(payload))
@@ -454,6 +473,8 @@ func genC16(seed int64, tier string) []caseOut {
 	// one JWK value a caller reads every key of the run into, whatever its curve: each read gives the
 	// key that was read, labelled as such, and writes back out as the same JWK
 	var reader jwsutil.JWK
+	var heldBytes []byte
+	var heldCopy string
 	readBack := func(jb []byte, wantKty, wantCrv string) (key interface{}, ok bool) {
 		defer func() {
 			if recover() != nil {
@@ -467,6 +488,11 @@ func genC16(seed int64, tier string) []caseOut {
 		if err != nil || reader.Kty != wantKty || reader.Crv != wantCrv {
 			return nil, false
 		}
+		// what an earlier write returned is still what it was
+		if heldBytes != nil && string(heldBytes) != heldCopy {
+			return nil, false
+		}
+		heldBytes, heldCopy = mb, string(mb)
 		var a, b map[string]interface{}
 		if json.Unmarshal(jb, &a) != nil || json.Unmarshal(mb, &b) != nil {
 			return nil, false
@@ -497,6 +523,25 @@ func genC16(seed int64, tier string) []caseOut {
 			if key, ok := readBack(jb, "EC", kind); ok {
 				if bpk, ok := key.(*ecdsa.PublicKey); ok && bpk.X.Cmp(x) == 0 && bpk.Y.Cmp(y) == 0 {
 					backOK = true
+				}
+			}
+			if kind == "secp256k1" && backOK {
+				// the key type and curve name in another letter case (the reader takes them): what is written
+				// back out carries the names as the format spells them
+				for _, sp := range [][2]string{{"ec", "secp256k1"}, {"EC", "SECP256K1"}, {"Ec", "Secp256K1"}} {
+					var m map[string]interface{}
+					json.Unmarshal(jb, &m)
+					m["kty"], m["crv"] = sp[0], sp[1]
+					sb, _ := json.Marshal(m)
+					var rd jwsutil.JWK
+					if rd.UnmarshalJSON(sb) != nil {
+						continue // refusing the spelling is fine
+					}
+					wb, werr := rd.MarshalJSON()
+					var a, b map[string]interface{}
+					if werr != nil || json.Unmarshal(wb, &a) != nil || json.Unmarshal(jb, &b) != nil || a["kty"] != b["kty"] || a["crv"] != b["crv"] || a["x"] != b["x"] || a["y"] != b["y"] {
+						backOK = false
+					}
 				}
 			}
 		}
@@ -596,6 +641,47 @@ func genC16(seed int64, tier string) []caseOut {
 			Rec:   map[string]interface{}{"kind": kind, "genuine_verified": first, "tampered": trecs},
 			Label: kind + ":verify-genuine-then-invalid", NonTri: fmt.Sprintf("%x", h[:8]),
 		})
+	}
+	// keys converted by several goroutines at once (each its own key): every JWK is the caller's key
+	for _, kind := range []string{"secp256k1", "P-256"} {
+		const workers, rounds = 8, 200
+		fr := rand.New(rand.NewSource(int64(1600 + len(kind))))
+		keys := make([]*keyPair, workers)
+		for k := range keys {
+			keys[k] = genKey(fr, kind)
+		}
+		got := make([]*jws.JWK, workers)
+		var wg sync.WaitGroup
+		for k := range keys {
+			wg.Add(1)
+			go func(k int) {
+				defer wg.Done()
+				defer func() { recover() }()
+				want, _ := pubkey.GetPublicKeyJWK(keys[k].public())
+				got[k] = want
+				for j := 0; j < rounds; j++ {
+					jw, err := pubkey.GetPublicKeyJWK(keys[k].public())
+					if err != nil || want == nil || jw.X != want.X || jw.Y != want.Y || jw.Crv != want.Crv {
+						got[k] = jw
+						return
+					}
+				}
+			}(k)
+		}
+		wg.Wait()
+		for k, kp := range keys {
+			_, w, _, _ := curveOf(kind)
+			impl := "None"
+			if got[k] != nil {
+				impl = "(Some " + coqJWK(got[k]) + ")"
+			}
+			h := sha256.Sum256([]byte("conc" + kind + kp.ec.X.String()))
+			out = append(out, caseOut{
+				Coq:   fmt.Sprintf("(mk_c16ec %s %s %s %s true %d%%nat [])", cStr(kind), cBig(kp.ec.X), cBig(kp.ec.Y), impl, w),
+				Rec:   map[string]interface{}{"kind": kind, "x": kp.ec.X.String(), "impl_jwk_under_concurrency": got[k]},
+				Label: kind + ":converted-concurrently", NonTri: fmt.Sprintf("%x", h[:8]),
+			})
+		}
 	}
 	// the curves' parameters as they are before anything is read (they belong to the whole process)
 	paramSnap := func() string {
@@ -744,5 +830,8 @@ func init() {
 }
 
 func kind2label(k int) string {
+	if k >= 20 {
+		return "malformed-compact-form-with-payload-supplied"
+	}
 	return []string{"", "other-payload-supplied", "detached-with-payload", "detached-with-other-payload", "detached-without-payload", "same-payload-supplied"}[k]
 }
